@@ -743,10 +743,8 @@ class AsyncFIXConnection:
             self._session, next_num_in=int(seqreset_msg[FTag.MsgSeqNum])
         )
 
-        # Set journal at new NewSeqNo
-        self._journaler.set_seq_num(
-            self._session, next_num_in=int(seqreset_msg[FTag.NewSeqNo])
-        )
+        # Journal is set at new NewSeqNo in _finalize_message(), after the message itself
+        #   was stored (under its own MsgSeqNum, which also sets journal counter)
         return True
 
     async def _finalize_message(self, msg: FIXMessage, raw_msg: bytes):
@@ -773,6 +771,12 @@ class AsyncFIXConnection:
         self._message_last_time = time.time()
 
         self._journaler.persist_msg(raw_msg, self._session, MessageDirection.INBOUND)
+
+        if msg.msg_type == FMsg.SEQUENCERESET:
+            # Set journal at new NewSeqNo
+            self._journaler.set_seq_num(
+                self._session, next_num_in=self._session.next_num_in
+            )
 
     async def _process_testrequest(self, testreq_msg: FIXMessage):
         """Handles TestRequest(35=1).
